@@ -137,7 +137,9 @@ INC_B = [('data', 1, [0x52])]
 def placements(acc, idx, n):
     ctr = 0
     body_after = [('data', 2, [('lab', 'GI')]), ('data', 1, [0xEE])]
-    dirsets = [(), ('d1',), ('d1', 'd2'), ('d1', 'd1'), ('d2', 'd1'), ('d1', 'd2', 'd1'), ('.',), ('d1', '.')]
+    dirsets = [(), ('d1',), ('d1', 'd2'), ('d1', 'd1'), ('d2', 'd1'), ('d1', 'd2', 'd1'), ('.',), ('d1', '.'),
+               # a directory named twice (or the main file's own directory named again) with another directory after it
+               ('d1', 'd1', 'd2'), ('.', 'd1'), ('.', 'd2', 'd1'), ('d2', 'd2', 'd1')]
     places = [(), ('',), ('d1',), ('d2',), ('', 'd1'), ('d1', 'd2'), ('', 'd2'), ('d3',)]
     # a file reached through a nested include and then included again (directly, or through a second child: a diamond)
     for order in itertools.permutations(['inc.asm', 'deep.asm', 'incb.asm'], 2):
